@@ -142,6 +142,31 @@ def scenarios(sh, rng, mk, hid):
             expect(sh, f'enumitem-no-name|{how}|item.sql', AME, lambda: it.sql, case, hid)
             e = Enum('eq', [it])
             expect(sh, f'enumitem-no-name|{how}|enum.sql', AME, lambda: e.sql, case, hid)
+    # ---- the database rendering was refused for ANOTHER reason first; afterwards a missing attribute is still refused
+    db, case = fresh()
+    t1, t2 = rng.sample(db.tables, 2)
+    cv = Column('victimaq', 'int')
+    t1.add_column(cv)
+    db.add(Reference('>', cv, t2.columns[0], name='rafterq'))
+    t1.delete_column(cv)
+    try:
+        db.sql
+    except Exception:  # noqa
+        pass
+    try:
+        db.dbml
+    except Exception:  # noqa
+        pass
+    tn = rng.choice(db.tables)
+    cn = rng.choice(tn.columns)
+    cn.name = None
+    expect(sh, 'column-no-name|after-refused-db.sql|column.sql', AME, lambda: cn.sql, case, hid)
+    tn.name = None
+    expect(sh, 'table-no-name|after-refused-db.sql|table.sql', AME, lambda: tn.sql, case, hid)
+    if db.enums:
+        en = rng.choice(db.enums)
+        en.name = None
+        expect(sh, 'enum-no-name|after-refused-db.sql|enum.sql', AME, lambda: en.sql, case, hid)
     # ---- index not attached ---------------------------------------------------------------
     db, case = fresh()
     t = rng.choice(db.tables)
@@ -201,6 +226,15 @@ def scenarios(sh, rng, mk, hid):
             r3 = Reference(kind, [t1.columns[0], loose], [t2.columns[0], t2.columns[1]]) if side == 1 else \
                 Reference(kind, [t1.columns[0], t1.columns[1]], [t2.columns[0], loose])
             expect(sh, f'ref-tableless-column|composite-never-attached|ref.sql|{tag}', TNF, lambda: r3.sql, case, hid)
+            # a side made of an attached and a table-less column mixes "columns of different tables": asking for the
+            # tables is refused, whichever of the two comes first
+            expect(sh, f'ref-mixed-side|partly-detached|table{side}|{tag}', DBE, (lambda: r3.table1) if side == 1 else (lambda: r3.table2), case, hid)
+            expect(sh, f'ref-mixed-side|partly-detached-after-delete|table{side}|{tag}', DBE, (lambda: r.table1) if side == 1 else (lambda: r.table2), case, hid)
+            loose3 = Column('loose3q', 'int')
+            r4 = Reference(kind, [loose3, t1.columns[0]], [t2.columns[0], t2.columns[1]]) if side == 1 else \
+                Reference(kind, [t1.columns[0], t1.columns[1]], [loose3, t2.columns[0]])
+            expect(sh, f'ref-mixed-side|partly-detached-first|table{side}|{tag}', DBE, (lambda: r4.table1) if side == 1 else (lambda: r4.table2), case, hid)
+            expect(sh, f'ref-tableless-column|composite-first-never-attached|ref.sql|{tag}', TNF, lambda: r4.sql, case, hid)
     # ---- a consistent reference that becomes mixed because a column is MOVED to another table -----
     for kind in ('>', '<', '-', '<>'):
         for side in (1, 2):
